@@ -106,6 +106,7 @@ struct Stats {
     uuid_types_live: u64,
     acks_blacked_out: u64,
     acks_while_building: u64,
+    snap_empty_sent: u64,
 }
 
 fn one_history(ctx: &mut Ctx, rng: &mut Rng, ticks: usize) {
@@ -118,6 +119,7 @@ fn one_history(ctx: &mut Ctx, rng: &mut Rng, ticks: usize) {
     let target = *rng.pick(&[3usize, 20, 80, 250, 700]);
     // a period during which every acknowledgement is lost (the sender keeps diffing against an ever older base)
     let blackout: Option<(usize, usize)> = if rng.chance(1, 3) && ticks > 200 { let a = rng.usize_below(ticks - 170); Some((a, a + rng.range(110, 165) as usize)) } else { None };
+    let vanilla_empty = rng.bool();
     let mut world = World::new();
     let mut sender = Storage::new();
     let mut receiver = Manager::new();
@@ -128,14 +130,22 @@ fn one_history(ctx: &mut Ctx, rng: &mut Rng, ticks: usize) {
     let mut tick: i32 = *rng.pick(&[0, 1, 2, 1000, i32::MAX - 100_000]);
     let mut st = Stats::default();
     let mut log: Vec<serde_json::Value> = Vec::new();
-    let params = json!({"blackout": blackout, "loss": loss, "dup": dup, "reorder": reorder, "ack_loss": ack_loss, "churn": churn, "target": target, "uuid_types": specs.iter().filter(|s| matches!(s.t, TypeId::Uuid(_))).count()});
+    let params = json!({"blackout": blackout, "vanilla_empty": vanilla_empty, "loss": loss, "dup": dup, "reorder": reorder, "ack_loss": ack_loss, "churn": churn, "target": target, "uuid_types": specs.iter().filter(|s| matches!(s.t, TypeId::Uuid(_))).count()});
     let mut violated = false;
     for step in 0..ticks {
         if violated {
             break;
         }
         tick += rng.range(1, 3) as i32;
-        evolve(rng, &mut world, &specs, churn, target);
+        // the world changes, stands still, or returns to the state of the acknowledged base
+        match rng.below(10) {
+            0 | 1 => {}
+            2 => match sender.delta_tick().and_then(|t| built.get(&t)) {
+                Some(w) => world = w.clone(),
+                None => evolve(rng, &mut world, &specs, churn, target),
+            },
+            _ => evolve(rng, &mut world, &specs, churn, target),
+        }
         // ---- sender, as server/src/main.rs does
         let early_ack = rng.chance(1, 4) && !to_server.is_empty();
         let early_ack_value = if early_ack { Some(to_server.remove(0)) } else { None };
@@ -166,6 +176,12 @@ fn one_history(ctx: &mut Ctx, rng: &mut Rng, ticks: usize) {
             let delta = sender.add_snap(tick, snap);
             let mut bytes: Vec<u8> = Vec::with_capacity(256 * 1024);
             with_packer(&mut bytes, |p| delta.write(obj_size, p).map(|_| ())).map_err(|_| "delta-too-large".to_string())?;
+            // A vanilla server sends SnapEmpty for a delta without changes (the
+            // library's own writer always emits the three-integer header).
+            let unchanged = bytes.len() == 3 && bytes.iter().all(|&b| b == 0);
+            if unchanged && vanilla_empty {
+                bytes.clear();
+            }
             let msgs: Vec<Msg> = delta_chunks(tick, delta_tick, &bytes, crc)
                 .map(|m| match m {
                     SnapMsg::SnapEmpty(e) => Msg::Empty { tick: e.tick, rel: e.delta_tick },
@@ -198,6 +214,9 @@ fn one_history(ctx: &mut Ctx, rng: &mut Rng, ticks: usize) {
         log.push(json!({"tick": tick, "items": world.len(), "messages": msgs.len(), "base": sender.delta_tick()}));
         if msgs.len() > 1 {
             st.multi_part += 1;
+        }
+        if matches!(msgs.first(), Some(Msg::Empty { .. })) {
+            st.snap_empty_sent += 1;
         }
         st.uuid_types_live = st.uuid_types_live.max(world.keys().filter(|k| matches!(k.0, TypeId::Uuid(_))).map(|k| k.0).collect::<BTreeSet<_>>().len() as u64);
         for m in msgs {
@@ -324,6 +343,7 @@ fn one_history(ctx: &mut Ctx, rng: &mut Rng, ticks: usize) {
     ctx.count("resyncs_after_unknown_base", st.full_after_unknown);
     ctx.count("acks_lost_in_blackout", st.acks_blacked_out);
     ctx.count("acks_processed_while_building", st.acks_while_building);
+    ctx.count("snap_empty_messages_sent", st.snap_empty_sent);
     ctx.max("max_base_tick_distance", st.max_base_distance);
     ctx.max("max_uuid_types_live", st.uuid_types_live);
     for (e, n) in &st.errors {
